@@ -9,6 +9,7 @@ import (
 	"flag"
 	"fmt"
 	"os"
+	"runtime/pprof"
 	"sort"
 	"strings"
 	"time"
@@ -39,30 +40,6 @@ func baseDelay(role spectypes.BeaconRole) time.Duration {
 	return 0
 }
 
-// when the global round gr is running (quick rounds of 2 s, slow rounds of 2 min after round 8), plus a position
-// inside the round: 0 = just after its start, 1 = middle, 2 = just before its deadline
-func timeOf(role spectypes.BeaconRole, gr, pos int) time.Duration {
-	start := baseDelay(role)
-	length := 2 * time.Second
-	for r := 1; r < gr; r++ {
-		if r <= 8 {
-			start += 2 * time.Second
-		} else {
-			start += 120 * time.Second
-		}
-	}
-	if gr > 8 {
-		length = 120 * time.Second
-	}
-	switch pos {
-	case 0:
-		return start + 150*time.Millisecond
-	case 1:
-		return start + length/2
-	}
-	return start + length - 150*time.Millisecond
-}
-
 // (slot, offset) for a duration since the start of slot `height`, keeping the offset inside [1.2 s, 11.5 s]
 func slotAndOffset(height uint64, d time.Duration) (phase0.Slot, time.Duration) {
 	slot := height + uint64(d/(12*time.Second))
@@ -89,6 +66,9 @@ type run struct {
 	sync   bool
 	role   spectypes.BeaconRole
 	height uint64
+	// highest clock round at which a broadcast was validated
+	maxRound int
+	roleName string
 }
 
 func toInt(v any) int {
@@ -121,7 +101,9 @@ func newRun(b vh.Behaviour, res *vh.Result, env *valkit.Env) *run {
 	}
 	// height = slot of the duty; leader rotation = height mod N
 	height := uint64(89600 + toInt(p["LeaderOffset"]))
-	r := &run{res: res, b: b, env: env, peers: map[kit.OpID]*valkit.Peer{}, gr: 1, pos: toInt(p["pos"]), sync: vh.Bool(p, "sync"), role: role, height: height}
+	r := &run{res: res, b: b, env: env, peers: map[kit.OpID]*valkit.Peer{}, gr: 1, pos: toInt(p["pos"]), sync: vh.Bool(p, "sync"), role: role, height: height,
+		roleName: vh.Str(p, "role")}
+	probeWindow(env, role)
 	r.w = kit.NewWorld(n, byz, height, sv, role)
 	for _, h := range r.w.Honest {
 		r.peers[h] = env.NewPeer(farFork)
@@ -142,7 +124,16 @@ func (r *run) validateNew() {
 		if mr := int(e.Msg.Message.Round); mr > gr && len(e.Msg.Signers) == 1 {
 			gr = mr
 		}
-		slot, off := slotAndOffset(r.height, timeOf(r.role, gr, r.pos))
+		if gr > r.maxRound {
+			r.maxRound = gr
+		}
+		d, inWindow := clockTime(r.role, gr, r.pos)
+		if !inWindow {
+			// beyond the role's slot window (e.g. the last slow rounds of an attester duty): outside the property's premise
+			r.res.Counters["outside_slot_window"]++
+			continue
+		}
+		slot, off := slotAndOffset(r.height, d)
 		for _, p := range r.w.Honest {
 			if p == e.From {
 				continue
@@ -307,30 +298,57 @@ func replay(b vh.Behaviour, res *vh.Result, env *valkit.Env) {
 		res.Nontrivial++
 	}
 	res.Counters["broadcasts"] += r.seen
-	if r.gr > res.Counters["max_global_round"] {
-		res.Counters["max_global_round"] = r.gr
-	}
+	// one flag per (role, committee size, highest clock round with a validated broadcast): the maximum is taken by C10.py
+	// (counters of parallel shards are added up)
+	res.Counters[fmt.Sprintf("qbft_max_round:%s:n%d:%02d", r.roleName, r.w.N, r.maxRound)]++
 }
 
 func main() {
 	in := flag.String("in", "", "behaviours NDJSON")
 	out := flag.String("out", "", "result JSON")
+	prof := flag.String("cpuprofile", "", "write a CPU profile (debugging)")
 	flag.Parse()
+	if *prof != "" {
+		f, err := os.Create(*prof)
+		if err == nil {
+			_ = pprof.StartCPUProfile(f)
+			defer pprof.StopCPUProfile()
+		}
+	}
 	res := vh.NewResult()
 	behs, err := vh.ReadBehaviours(*in)
 	if err != nil {
 		fmt.Fprintln(os.Stderr, err)
 		os.Exit(3)
 	}
-	env, err := valkit.NewEnv(4)
-	if err != nil {
-		fmt.Fprintln(os.Stderr, err)
-		os.Exit(3)
+	envs := map[int]*valkit.Env{}
+	envFor := func(n int) *valkit.Env {
+		if n == 0 {
+			n = 4
+		}
+		if e, ok := envs[n]; ok {
+			return e
+		}
+		e, err := valkit.NewEnv(n)
+		if err != nil {
+			fmt.Fprintln(os.Stderr, err)
+			os.Exit(3)
+		}
+		envs[n] = e
+		return e
 	}
-	kit.Domain = env.Domain
+	kit.Domain = envFor(4).Domain
 	for _, b := range behs {
-		replay(b, res, env)
+		env := envFor(toInt(b.Params["N"]))
+		if vh.Str(b.Params, "mode") == "duty" {
+			replayDuty(b, res, env)
+		} else {
+			replay(b, res, env)
+		}
 		kit.CloseAll()
+	}
+	for r, n := range lateSlots {
+		res.Notes = append(res.Notes, fmt.Sprintf("probed slot window of role %s: a consensus message is not late until %d slots after its slot", r.String(), n))
 	}
 	if len(behs) > 0 {
 		res.Samples = append(res.Samples, behs[len(behs)/2])
